@@ -54,7 +54,7 @@ type CtxObj struct {
 
 func isNativeObj(v Value) bool {
 	switch v.(type) {
-	case *ErrObj, *StatusObj, *CtxObj, *PRMsg, *PRField, *PRList, *PRMap, *PRFields, *PRMsgDesc, *PREnum, *ListStub:
+	case *ErrObj, *StatusObj, *CtxObj, *PRMsg, *PRField, *PRList, *PRMap, *PRFields, *PRMsgDesc, *PREnum, *ListStub, *PRVal:
 		return true
 	}
 	return false
@@ -478,15 +478,23 @@ func init() {
 	reg("math.Max|math.Min", func(ex *Exec, g *G, fn *ssa.Function, args []Value, done func(Value)) {
 		x, y := termOf(args[0]), termOf(args[1])
 		B := ex.B
-		// Go semantics: NaN if either is NaN; +Inf/-Inf rules follow from ordering; Max(+0,-0)=+0
+		// Go's math.Min/Max are commutative (NaN if either is NaN; -0 < +0): evaluate in a canonical argument order
+		if x.ID > y.ID {
+			x, y = y, x
+		}
 		nan := B.Or(B.FUn(smt.OFIsNaN, x), B.FUn(smt.OFIsNaN, y))
-		var r *smt.Term
+		zero := B.F64C(0)
+		bothZero := B.And(B.FCmp(smt.OFEq, x, zero), B.FCmp(smt.OFEq, y, zero))
+		xneg, yneg := B.FUn(smt.OFIsNeg, x), B.FUn(smt.OFIsNeg, y)
+		var r, z *smt.Term
 		if fn.Name() == "Max" {
 			r = B.Ite(B.FCmp(smt.OFLt, x, y), y, x)
+			z = B.Ite(B.And(xneg, yneg), B.F64C(math.Copysign(0, -1)), zero)
 		} else {
 			r = B.Ite(B.FCmp(smt.OFLt, y, x), y, x)
+			z = B.Ite(B.Or(xneg, yneg), B.F64C(math.Copysign(0, -1)), zero)
 		}
-		done(B.Ite(nan, B.F64C(math.NaN()), r))
+		done(B.Ite(nan, B.F64C(math.NaN()), B.Ite(bothZero, z, r)))
 	})
 	reg("math.Floor", func(ex *Exec, g *G, fn *ssa.Function, args []Value, done func(Value)) {
 		x := termOf(args[0])
